@@ -173,6 +173,19 @@ pub fn entry_view(bytes: &[u8], i: usize, pws: &[Vec<u8>], read_content: bool) -
             match first {
                 Ok(()) => {
                     let mut f = ar.by_index(i).map_err(|e| e.to_string())?;
+                    // (small entries: every third one is read by a few bytes through read() and the rest through read_to_end(),
+                    //  then read_to_end() once more at end-of-file - the conveniences must agree with the read loop)
+                    if f.size() < (1 << 20) && i % 3 == 1 {
+                        let mut v = vec![];
+                        let mut head = [0u8; 4];
+                        let k = f.read(&mut head).map_err(|e| e.to_string())?;
+                        v.extend_from_slice(&head[..k]);
+                        f.read_to_end(&mut v).map_err(|e| e.to_string())?;
+                        f.read_to_end(&mut v).map_err(|e| e.to_string())?;
+                        clen = v.len() as u64;
+                        ccrc.update(&v);
+                        return Ok(());
+                    }
                     loop {
                         let n = f.read(&mut buf).map_err(|e| e.to_string())?;
                         if n == 0 {
